@@ -85,6 +85,24 @@ def coq_make(targets, timeout=3000):
     return rc == 0, out
 
 
+COQ_SLOTS = int(os.environ.get("VERIF_COQ_SLOTS", "20"))
+
+
+def coq_slot_acquire():
+    """machine-wide limit on concurrently running model evaluations (each coqc takes ~0.5 GB): returns an open,
+    flock'ed file (close it to release) or None when all slots are busy"""
+    d = os.path.join(BUILD, ".coqslots")
+    os.makedirs(d, exist_ok=True)
+    for k in range(COQ_SLOTS):
+        f = open(os.path.join(d, "slot-%d" % k), "w")
+        try:
+            fcntl.flock(f, fcntl.LOCK_EX | fcntl.LOCK_NB)
+            return f
+        except OSError:
+            f.close()
+    return None
+
+
 def go_string_list(xs):
     return " ".join(xs)
 
@@ -145,6 +163,34 @@ class Check:
         if rc != 0 or closed != npa or npa < len(thms) or bad:
             self.violation("Print Assumptions of %s not closed (%d/%d closed, axioms %s)" % (self.pid, closed, npa, bad),
                            {"kind": "assumptions", "out_tail": out[-3000:]}, found_input=False)
+            return False
+        if self.tier == "thorough" and os.environ.get("VERIF_NO_COQCHK") != "1":
+            return self.coqchk()
+        return True
+
+    def coqchk(self):
+        """thorough tier: re-check props/<pid>.vo and everything it depends on with the independent checker coqchk and
+        record the axioms it reports (cached by the hash of all .vo files of the development)."""
+        h = hashlib.md5()
+        for d in ("theories", "proofs", "props"):
+            for f in sorted(os.listdir(os.path.join(COQ, d))):
+                if f.endswith(".vo"):
+                    h.update(f.encode()); h.update(open(os.path.join(COQ, d, f), "rb").read())
+        os.makedirs(os.path.join(BUILD, "coqchk"), exist_ok=True)
+        cache = os.path.join(BUILD, "coqchk", "%s-%s.txt" % (self.pid, h.hexdigest()[:16]))
+        if os.path.exists(cache):
+            out, rc = open(cache).read(), 0
+        else:
+            rc, out = sh(["coqchk", "-silent", "-o"] + QARGS + ["Drummer.Props." + self.pid], cwd=COQ, timeout=5400)
+            if rc == 0:
+                open(cache, "w").write(out)
+        ax = []
+        if "* Axioms:" in out:
+            sect = out.split("* Axioms:", 1)[1].split("\n* ", 1)[0]
+            ax = [l.strip() for l in sect.splitlines() if l.strip() and "<none>" not in l]
+        self.cov["coqchk"] = {"cmd": "coqchk -silent -o Drummer.Props.%s" % self.pid, "rc": rc, "axioms_of_all_loaded_libraries": ax}
+        if rc != 0:
+            self.violation("coqchk rejects the compiled development of %s" % self.pid, {"kind": "coqchk", "out_tail": out[-3000:]}, found_input=False)
             return False
         return True
 
@@ -207,23 +253,33 @@ class Check:
         t_end = time.time() + timeout
         while idx < len(jobs) or running:
             while idx < len(jobs) and len(running) < 16:
+                slot = coq_slot_acquire()
+                if slot is None:
+                    if running:
+                        break               # wait for one of ours to finish
+                    time.sleep(0.2)         # all slots taken by other checks running at the same time
+                    if time.time() > t_end:
+                        slot = open(os.devnull)   # give up waiting for a slot rather than dead-lock
+                    else:
+                        continue
                 name, vtext = jobs[idx]
                 open(os.path.join(d, name + ".v"), "w").write(vtext)
                 lf = open(os.path.join(d, name + ".out"), "w")
                 p = subprocess.Popen(["coqc"] + QARGS + [name + ".v"], cwd=d, stdout=lf, stderr=subprocess.STDOUT, env=e)
-                running.append((idx, p, lf, name))
+                running.append((idx, p, lf, name, slot))
                 idx += 1
             still = []
-            for (i, p, lf, name) in running:
+            for (i, p, lf, name, slot) in running:
                 rc = p.poll()
                 if rc is None:
                     if time.time() > t_end:
                         p.kill()
                         rc = 124
                     else:
-                        still.append((i, p, lf, name))
+                        still.append((i, p, lf, name, slot))
                         continue
                 lf.close()
+                slot.close()                # releases the flock
                 res[i] = (rc, open(os.path.join(d, name + ".out")).read())
             running = still
             if running:
